@@ -283,8 +283,50 @@ static struct ubuf *build_split(long size, int nseg, const int *segs)
     return head;
 }
 
+/* p<h>.<n>: the block first carries an old header of h octets that is exactly its first segment; the header is
+ * stripped (the head segment is empty from then on, with room in front of it), the block is looked at, n <= h
+ * octets are prepended and filled with the first n octets of the data: what an encapsulation pipe does when it
+ * swaps one header for another */
+static long prep_h = -1, prep_n;
+static struct ubuf *build_prep(long size, int nseg, const int *segs)
+{
+    long h = prep_h > 0 ? prep_h : 1, n = prep_n < h ? prep_n : h;
+    if (n > size) n = size;
+    struct ubuf *head = seg_of_bytes(NULL, h, 0x3c);
+    long pos = 0;
+    for (int i = 0; i < nseg; i++) {
+        long a = pos, b = pos + segs[i];
+        pos = b;
+        if (b <= n && !(segs[i] == 0 && a >= n)) continue;
+        if (a < n) a = n;
+        if (!ubase_check(ubuf_block_append(head, seg_of_bytes(buf + a, b - a, 0)))) { printf("err append\n"); exit(3); }
+    }
+    if (!ubase_check(ubuf_block_resize(head, h, -1))) { printf("err strip\n"); exit(3); }
+    if (size > n) {
+        int sz = 1;
+        const uint8_t *r;
+        if (!ubase_check(ubuf_block_read(head, 0, &sz, &r))) { printf("err look\n"); exit(3); }
+        ubuf_block_unmap(head, 0);
+    }
+    if (n > 0) {
+        if (!ubase_check(ubuf_block_prepend(head, n))) { printf("err prepend\n"); exit(3); }
+        for (long o = 0; o < n; ) {
+            int sz = n - o;
+            uint8_t *w;
+            /* (a refusal here is the code's: the read-back below then differs from what was written) */
+            if (!ubase_check(ubuf_block_write(head, o, &sz, &w)) || sz <= 0) break;
+            memcpy(w, buf + o, sz);
+            ubuf_block_unmap(head, o);
+            o += sz;
+        }
+    }
+    return head;
+}
+
 static struct ubuf *build_block(long size, int nseg, const int *segs)
 {
+    if (prep_h >= 0 && size >= 1)
+        return build_prep(size, nseg, segs);
     if (split_k >= 0 && size >= 2)
         return build_split(size, nseg, segs);
     struct ubuf *head = NULL;
@@ -369,6 +411,15 @@ static void cmd_sget(long size, int off, const char *seg, int nw, const int *ws)
     if (size > wend) size = wend;
     win_pre = win_post = 0;
     split_k = -1;
+    prep_h = -1;
+    if (seg[0] == 'p') {
+        char *e;
+        prep_h = strtol(seg + 1, &e, 10);
+        prep_n = 1;
+        if (*e == '.') prep_n = strtol(e + 1, &e, 10);
+        if (*e != ':') { printf("err prep token\n"); exit(3); }
+        seg = e + 1;
+    }
     if (seg[0] == 'x') {
         char *e;
         split_k = strtol(seg + 1, &e, 10);
